@@ -11,12 +11,14 @@ class Unspecified(Exception):
 
 
 class RefTable:
-    def __init__(self, entries: list[tuple[bytes, str]]):
-        """entries in file order: (code bytes, text); later duplicates win."""
-        self.entries = list(entries)
+    def __init__(self, entries: list[tuple]):
+        """entries in file order: (code bytes, text) or (code bytes, text, parameter count); later duplicates win.
+        The parameter count (`F0:1=[wait]`: the code is followed by one raw parameter byte) matters to decoding only."""
+        self.params = {e[1]: e[2] for e in entries if len(e) > 2 and e[2]}
+        self.entries = [(e[0], e[1]) for e in entries]
         self.enc: dict[str, bytes] = {}
         self.dec: dict[bytes, str] = {}
-        for code, text in entries:
+        for code, text in self.entries:
             self.enc[text] = code
             self.dec[code] = text
         self.maxlen = max((len(t) for t in self.enc), default=0)
@@ -64,5 +66,5 @@ class RefTable:
         return True
 
 
-def render_table(entries: list[tuple[bytes, str]]) -> str:
-    return "".join(f"{code.hex().upper() if i % 2 else code.hex()}={text}\n" for i, (code, text) in enumerate(entries))
+def render_table(entries: list[tuple]) -> str:
+    return "".join(f"{e[0].hex().upper() if i % 2 else e[0].hex()}{':%d' % e[2] if len(e) > 2 and e[2] else ''}={e[1]}\n" for i, e in enumerate(entries))
